@@ -31,7 +31,7 @@ func (c18) Assumptions() []string {
 	return []string{
 		"the simulator's contribution is owning the RNG seed and the call order; the one fault injected is the caller overwriting the configuration struct it passed to a constructor (the configured parameters are those at construction)",
 		"statistical thresholds: 7 standard errors (two-sided tail 2.6e-12 per statistic) computed from the configured distribution; KS threshold 4.5/sqrt(n) (tail about 5e-18)",
-		"repeated values inside a uniform pool are tolerated up to 3 (53-bit draws; birthday bound 2e-8 per pool); not checked for normal pools (the ziggurat sampler has about 2^39 distinct outputs)",
+		"repeated values inside a uniform pool are tolerated up to 3 (53-bit draws; birthday bound 2e-8 per pool), inside a normal pool of <= 60000 up to 12 (the ziggurat sampler has about 2^32 distinct outputs: expected repeats n^2/8.6e9 < 0.5), inside one tensor of >= 4096 elements up to 10",
 		"if re-seeding with the same value does not reproduce the same tensor (random state the seed does not reach) the oracles still apply; the run is flagged by a probe and a failure is confirmed from a fresh process",
 	}
 }
@@ -50,6 +50,9 @@ func c18params(r *sim.Rand, kind string) (f []float64, nilConf bool) {
 	case "full":
 		if r.Bool(0.25) {
 			return nil, true
+		}
+		if r.Bool(0.15) {
+			return []float64{[]float64{math.Copysign(0, -1), 1e-310, -1e300, 1}[r.Intn(4)]}, false
 		}
 		return []float64{r.Value(true)}, false
 	case "uniform", "randu":
@@ -140,6 +143,8 @@ func (c18) Generate(r *sim.Rand, tier string) *sim.Scenario {
 					st.I = []int{r.Range(1, 3), r.Range(1, 3), r.Range(1, 3), r.Range(1, 3), r.Range(2, 4), r.Range(2, 5)}
 				} else if r.Bool(0.2) {
 					st.I = []int{r.Range(17, 40), r.Range(17, 30)}
+				} else if r.Bool(0.12) {
+					st.I = []int{r.Range(128, 150), r.Range(128, 140)} // one call of 16k-21k elements
 				}
 			} else {
 				st.I = randShape(r, 4, 5, 200)
@@ -373,8 +378,8 @@ func (prop c18) Execute(sc *sim.Scenario) *sim.Outcome {
 				want = st.F[0]
 			}
 			for i, v := range vals {
-				if v != want {
-					out.Fail("full-constant", "%s: element %d is %v, expected %v", where, i, v, want)
+				if math.Float64bits(v) != math.Float64bits(want) {
+					out.Fail("full-constant", "%s: element %d is %v (bits %x), expected %v (bits %x)", where, i, v, math.Float64bits(v), want, math.Float64bits(want))
 					return fin()
 				}
 			}
@@ -395,6 +400,22 @@ func (prop c18) Execute(sc *sim.Scenario) *sim.Outcome {
 					return fin()
 				}
 			}
+		}
+		/* positions are independent draws: exact repeats inside one large tensor */
+		if len(vals) >= 4096 {
+			sv := append([]float64{}, vals...)
+			sort.Float64s(sv)
+			dup := 0
+			for i := 1; i < len(sv); i++ {
+				if sv[i] == sv[i-1] {
+					dup++
+				}
+			}
+			if dup > 10 {
+				out.Fail("position-dependence", "%s: %d of %d elements repeat the value of another position of the same tensor", where, dup, len(vals))
+				return fin()
+			}
+			out.Probes["large-tensor-calls"]++
 		}
 		/* fresh on every call */
 		if len(vals) >= 4 {
@@ -504,6 +525,11 @@ func (prop c18) Execute(sc *sim.Scenario) *sim.Outcome {
 		}
 		if pl.unif && rep > 3 {
 			out.Fail("repeated-values", "%s: %d repeated values in a pool of 53-bit uniform draws", desc, rep)
+			return fin()
+		}
+		if !pl.unif && n <= 60000 && rep > 12 {
+			// the ziggurat sampler has about 2^32 distinct outputs: ~n^2/8.6e9 chance repeats
+			out.Fail("repeated-values", "%s: %d repeated values in a pool of normal draws (expected well below 1)", desc, rep)
 			return fin()
 		}
 		if pl.r1n > 1000 {
